@@ -167,6 +167,16 @@ fn main() {
             println!("multiply_alpha_typed {ext:?}: {diff} of {} pixels differ between the strided view and an exact copy", w * h);
         }
     }
+    if want("crop-unvalidated-empty") {
+        // a crop box of zero width / height is never validated: NaN or far-away origins are accepted
+        let src = Image::new(8, 8, PixelType::U8);
+        for (l, t, w, h) in [(1e9, f64::NAN, 0.0, 0.0), (-5.0, 0.0, 0.0, 3.0), (0.0, 0.0, 0.0, f64::INFINITY), (1.0, 1.0, 2.0, 2.0)] {
+            let mut dst = Image::new(4, 4, PixelType::U8);
+            let mut r = Resizer::new();
+            let o = ResizeOptions::new().crop(l, t, w, h);
+            println!("crop({l}, {t}, {w}, {h}): {:?}", r.resize(&src, &mut dst, &o));
+        }
+    }
     if want("oversized-dst") {
         let mut pixels = vec![U8::new(9); 32];
         let src = TypedImage::<U8>::from_pixels(8, 8, vec![U8::new(100); 64]).unwrap();
